@@ -16,6 +16,7 @@ pub const K_RANGE: u32 = 5;
 pub const K_OVER: u32 = 6;
 pub const K_ARGS: u32 = 7;
 pub const K_VERDICT: u32 = 8;
+pub const K_NULL: u32 = 10;
 
 /// bit set of panic kinds the harness allows (bit k = kind k); 0 = no explicit panic may happen
 pub static mut ALLOW: u32 = 0;
